@@ -275,3 +275,28 @@ def wide_blocks(g, n, nlines=5, nspell=4, mutants=False):
                     acts.append(eval_action(words, tag={"k": "mut", "m": kind}))
         blocks.append((cfg, acts))
     return blocks
+
+
+USAGE_WORDS = "the quick brown fox jumps over a lazy dog while printing usage texts of arbitrary length for testing".split()
+
+
+def usage_decorate(cfg, r_):
+    """display properties for the usage families (C17 layout, C18 listing): long keys around the same-line threshold, hidden /
+    deprecated / replaced arguments, descriptions of 0..40 words starting with the token D<i>, default-value printing"""
+    cfg["hcons"] = []
+    for k, a in enumerate(cfg["args"]):
+        if a["l"] and r_.random() < 0.25:
+            a["l"] = T(S(a["l"]) + "-" + "x" * r_.choice([5, 20, 30, 31, 32, 33, 34, 35, 36, 40, 60]))
+        a["hidden"] = r_.random() < 0.3
+        a["repl"] = []
+        if not a["mand"] and r_.random() < 0.25:
+            a["depr"] = True
+            if r_.random() < 0.5:
+                a["repl"] = T("--new-arg")
+        a["printdef"] = "dflt"
+        a["desc"] = T("D%d %s" % (k + 1, " ".join(r_.choice(USAGE_WORDS + ["averyveryverylongwordthatdoesnotfitanywhere" * r_.choice([1, 2])] if r_.random() < 0.03 else USAGE_WORDS)
+                                                       for _ in range(r_.choice([0, 1, 3, 10, 40])))))
+        a["nodesc"] = False
+        if a["s"] == ord("h"):
+            a["s"] = ord("H")
+    return cfg
